@@ -61,6 +61,45 @@ HISTORY = {
     "C20_1": "caught as built", "C20_2": "refused as built (exit 2 from C03/C09: next_id no longer stores into _ids); rule I3 'process-wide counters' added, also run under C20",
     "C20_3": "missed as built; rule C20-R5 added (who may write the unit system's tables)",
 }
+HISTORY.update({
+    # third batch (all properties again, after the strengthening prompted by batches 1 and 2)
+    "b3_C01_1": "missed as built (the dimension engine trusted the constructors); rule C01-H6 added",
+    "b3_C01_2": "caught as built", "b3_C01_3": "caught as built",
+    "b3_C02_1": "missed as built; rule C02-P8 added (forced-assumption rewrites, module level included)",
+    "b3_C02_2": "missed as built (max() was whitelisted as value-preserving); C02-P2 now treats multi-argument min/max as a clamp",
+    "b3_C02_3": "missed as built; rule C02-P9 added (Probability returns its argument)",
+    "b3_C03_1": "missed as built; the import simulator now tracks attribute reads on partially initialised modules (I1)",
+    "b3_C03_2": "MISSED, as built and now: the chain runs through a value produced by solve(...).subs(...), which the must-contain expansion of I6 cannot look into "
+                "(a may-contain expansion reported seven false alarms on the pristine tree and was withdrawn)",
+    "b3_C03_3": "missed as built; rule C03-I7 added (positional use of name-ordered collections)",
+    "b3_C04_1": "caught as built", "b3_C04_2": "missed as built; C04-K3 extended (every checked component derives from the element)", "b3_C04_3": "caught as built",
+    "b3_C05_1": "caught as built", "b3_C05_2": "caught as built", "b3_C05_3": "missed as built; rule S7 added (collected factor used on every path of the iteration)",
+    "b3_C06_1": "caught as built", "b3_C06_2": "caught as built", "b3_C06_3": "missed as built; S1 now treats a loop behind an early return as conditional",
+    "b3_C07_1": "caught as built (C04-K4)", "b3_C07_2": "caught as built", "b3_C07_3": "caught as built",
+    "b3_C08_1": "missed as built; C05-S4 tightened (the registered scale passes through nothing but the collector)",
+    "b3_C08_2": "missed as built; C04-K7 extended (zip truncation)", "b3_C08_3": "caught as built",
+    "b3_C09_1": "caught as built", "b3_C09_2": "caught as built", "b3_C09_3": "missed as built; C09-N4 extended to __name__ reads in the printers' helpers",
+    "b3_C10_1": "caught as built", "b3_C10_2": "caught as built", "b3_C10_3": "caught as built",
+    "b3_C11_1": "refused as built (exit 2: undetermined assumption query in a conditional expression); caught after the evaluator adopted SymPy's three-valued falsiness there",
+    "b3_C11_2": "caught as built", "b3_C11_3": "caught as built",
+    "b3_C12_1": "REFUSED (exit 2), as built and now: the scale factors moved into CoordinateSystem and depend on how the system was constructed (SymPy's lame_coefficients for a "
+                "wrapped CoordSys3D); the evaluator does not model construction paths",
+    "b3_C12_2": "refused as built (exit 2: unknown attribute is_uniform); caught after fields are evaluated for both storage kinds with property lookup in the field classes",
+    "b3_C12_3": "caught as built",
+    "b3_C13_1": "missed as built (squares were compared, hiding the sign); J5 now demands a manifestly non-negative area element for two-component regions (patch rebased onto fix 94f7f9a)",
+    "b3_C13_2": "caught as built (C12)", "b3_C13_3": "missed as built; J2/J5 evaluated with parameter-free integrands and dependent limits (patch rebased onto fix 94f7f9a)",
+    "b3_C14_1": "caught as built", "b3_C14_2": "REFUSED (exit 2) now, missed as built: a new differentiation hook (_eval_derivative_n_times) is not decided; the check refuses instead of passing",
+    "b3_C14_3": "caught as built (C09-N1)",
+    "b3_C15_1": "refused as built (exit 2: id() outside the evaluator's subset); rule C15-X7 added", "b3_C15_2": "caught as built",
+    "b3_C15_3": "missed as built; rule C15-X7 (iterable traversed twice) added",
+    "b3_C16_1": "refused as built (exit 2: anchors of the shape-bound Q1/Q3 gone); caught after Q1/Q3 were rewritten as whole-function evaluation",
+    "b3_C16_2": "refused as built; caught after the rewrite (Expr.coeff modelled on the top-level sum)", "b3_C16_3": "refused as built; caught after the rewrite (scaled unknowns)",
+    "b3_C18_1": "missed as built; rule C18-L7 added", "b3_C18_2": "missed as built; rule C18-L8 added", "b3_C18_3": "missed as built; rule C18-L9 added",
+    "b3_C19_1": "REFUSED (exit 2), as built and now: same change as batch-2 seed C19_1 (stricter title rule in parse.py)",
+    "b3_C19_2": "missed as built; C19-D8 extended (an indexed symbol is applied to its own index)", "b3_C19_3": "caught as built",
+    "b3_C20_1": "missed by C20 as built (caught by nothing); C09-N1 who-may-construct and C20-R5 re-initialisation added",
+    "b3_C20_2": "caught as built", "b3_C20_3": "caught as built",
+})
 DROPPED = {
     "C05_1": "superseded: the agent's patch edited the running-extremum logic of _collect_min_max, which the repair of the genuine defect found through "
              "the same agent's notes (fix 2abe7fe) replaced; the patch no longer applies and its effect is covered by self-test mutant c05-running-sum-regression",
@@ -85,14 +124,14 @@ def main() -> int:
     out = VERIF / "seeded"
     out.mkdir(exist_ok=True)
     rows = []
-    for sd in sorted(root.glob("seed_C??_?")):
-        sid = sd.name[5:]
+    for sd in sorted(root.glob("seed_C??_?")) + sorted(root.glob("seed3_C??_?")):
+        sid = sd.name[5:] if sd.name.startswith("seed_") else "b3_" + sd.name[6:]
         if sid in DROPPED:
             rows.append((sid, "dropped", DROPPED[sid]))
             continue
         try:
-            suite = json.loads((results / f"seed_{sid}.suite.json").read_text())
-            checks = json.loads((results / f"seed_{sid}.checks.json").read_text())
+            suite = json.loads((results / f"{sd.name}.suite.json").read_text())
+            checks = json.loads((results / f"{sd.name}.checks.json").read_text())
         except (OSError, ValueError) as e:
             rows.append((sid, "unconfirmed", f"no results: {e}"))
             continue
@@ -111,7 +150,7 @@ def main() -> int:
         verdict = "caught" if any(v["exit"] == 1 for v in caught.values()) else ("refused" if any(v["exit"] == 2 for v in caught.values()) else "missed")
         meta = {
             "seed": sid,
-            "property": sid.split("_")[0],
+            "property": sid.replace("b3_", "").split("_")[0],
             "origin": "independent sub-agent given only the property text and its own scratch worktree of /repo",
             "needs_to_manifest": needs_text((sd / "notes.md").read_text()),
             "rebased": (sd / "patch.original.diff").exists(),
@@ -136,7 +175,7 @@ def main() -> int:
     table = ["| seed | property | what it needs to manifest (short) | reported by | history |", "|---|---|---|---|---|"]
     for a, b, c in rows:
         if b in ("dropped", "unconfirmed"):
-            table.append(f"| {a} | {a.split('_')[0]} | - | {b} | {c[:300]} |")
+            table.append(f"| {a} | {a.replace('b3_', '').split('_')[0]} | - | {b} | {c[:300]} |")
             continue
         meta = json.loads((out / a / "meta.json").read_text())
         rep = "; ".join(f"{k} {'/'.join(v['rules'])}" if v["exit"] == 1 else f"{k} refuses (exit 2)" for k, v in sorted(meta["checks_reporting"].items()))
